@@ -41,6 +41,16 @@ from rs2lean_gensparse import (N, P, Fn, Blk, Var, Ty, TInt, TBool, TUnit, TVec,
                                paren, walk, root_name, Unsupported, tokenize, Tok, header_regex, dedent, tokens_regex)
 
 
+def path_text(e):
+    """`self.a.b` for a chain of fields on a variable, else None"""
+    if e.kind == "var":
+        return e.name
+    if e.kind == "field":
+        r = path_text(e.recv)
+        return None if r is None else r + "." + e.name
+    return None
+
+
 class TEnum(Ty):
     def __init__(self, name, ctors):
         self.name, self.ctors = name, ctors          # ctors: [(name, [arg types as text])]
@@ -159,7 +169,8 @@ class BFn(Fn):
             r = None
             if n.kind == "assign":
                 r = root_name(n.lhs)
-            elif n.kind == "mcall" and (n.name in sp.MUTATING or n.name in self.mut_methods):
+            elif n.kind == "mcall" and (n.name in sp.MUTATING or n.name in self.mut_methods or
+                                        n.name in ("set_i_bits", "set_d_bits", "set_s_bits", "set_all")):
                 r = root_name(n.recv)
             if r is not None and r not in names:
                 names.append(r)
@@ -258,6 +269,8 @@ class BFn(Fn):
         ac = self.f.get("abs_calls", {}).get(path)
         if ac is not None:
             return self.abs_call(ac, None, e.args, blk, e)
+        if path == "TracebackCell::new" and not e.args and self.struct_ty("TracebackCell") is not None:
+            return "(0, 0, 0)", self.struct_ty("TracebackCell")
         return Fn.call(self, e, blk, exp)
 
     def abs_call(self, ac, recv, args, blk, node):
@@ -297,9 +310,20 @@ class BFn(Fn):
 
     def method_call(self, e, blk):
         """call of a translated / abstract method; None when `e` is not one"""
+        pt = path_text(e.recv)
+        if pt is not None:
+            ac = self.f.get("abs_calls", {}).get(pt + "." + e.name)
+            if ac is not None:
+                return self.abs_call(ac, None, e.args, blk, e)
         saved = (len(blk.lines), self.n_tmp)
         s, t = self.ex(e.recv, blk)
+        if isinstance(t, TStruct) and t.name == "TracebackCell":
+            r = self.cell_method(e, s, t, blk)
+            if r is not None:
+                return r
         key = "%r::%s" % (t, e.name)
+        if isinstance(t, TGen):
+            key = "%s::%s" % (t.lean_name, e.name)
         ac = self.f.get("abs_calls", {}).get(key)
         if ac is not None:
             r = self.abs_call(ac, s, e.args, blk, e)
@@ -356,6 +380,45 @@ class BFn(Fn):
             del blk.lines[saved[0]:]
             self.n_tmp = saved[1]
         return Fn.binary(self, e, blk, exp)
+
+    CELL_FIELDS = {"i": 0, "d": 1, "s": 2}
+
+    def cell_method(self, e, s, t, blk):
+        """`TracebackCell` read as its three 4-bit fields `(i, d, s)` (the bit packing is the subject of `Thm/GenTbCodes.lean`):
+        `set_x_bits(v)` writes field x, `get_x_bits()` reads it, `set_all(v)` writes all three"""
+        u16 = TInt("u16")
+        m = re.fullmatch(r"(set|get)_([ids])_bits", e.name)
+        if m and m.group(1) == "get" and not e.args:
+            return proj(s, self.CELL_FIELDS[m.group(2)], 3), u16
+        if m and m.group(1) == "set" and len(e.args) == 1:
+            v, vt = self.ex(e.args[0], blk, u16)
+            if vt != u16:
+                self.err("`%s(%r)`" % (e.name, vt), e)
+            parts = [proj(s, q, 3) for q in range(3)]
+            parts[self.CELL_FIELDS[m.group(2)]] = atom(v) if " " in v else v
+            self.cell_put(e.recv, tup(parts), blk)
+            return "()", TUnit()
+        if e.name == "set_all" and len(e.args) == 1:
+            v, vt = self.ex(e.args[0], blk, u16)
+            if vt != u16:
+                self.err("`set_all(%r)`" % (vt,), e)
+            self.cell_put(e.recv, tup([v, v, v]), blk)
+            return "()", TUnit()
+        return None
+
+    def cell_put(self, recv, val, blk):
+        """write a cell value back: to a local, or through `self.traceback.get_mut(i, j)` (= abstract `set`)"""
+        if recv.kind == "mcall" and recv.name == "get_mut" and len(recv.args) == 2:
+            ac = self.f.get("abs_calls", {}).get("Tbm::set")
+            s, t = self.ex(recv.recv, blk)
+            if ac is None or not isinstance(t, TGen):
+                self.err("`get_mut(..)` on %r" % (t,), recv)
+            a0, t0 = self.ex(recv.args[0], blk, TInt("usize"))
+            a1, t1 = self.ex(recv.args[1], blk, TInt("usize"))
+            tv = self.tmp()
+            blk.let(tv, "%s %s %s %s %s" % (ac["lean"], atom(s), atom(a0), atom(a1), atom(val)))
+            return self.place_write(recv.recv, tv, blk)
+        return self.place_write(recv, val, blk)
 
     def match_value(self, e, blk, exp):
         sc = e.scrut
@@ -590,14 +653,24 @@ class BFn(Fn):
     def if_stmt(self, e, blk):
         """`named_ifs` (spec): an `if` *statement* at function level becomes a named helper `<fn>_if<k>` over the variables it
         mentions (captures) and assigns (state) — so that the equality proofs can treat the blocks of a long function one by one"""
-        if not self.f.get("named_ifs") or len(self.scopes) != 1:
+        lvl = getattr(self, "_body_level", None)
+        if not self.f.get("named_ifs") or not (len(self.scopes) == 1 or (self.f.get("named_ifs") == "loops" and lvl == len(self.scopes))):
             return Fn.if_stmt(self, e, blk)
-        self.n_if = getattr(self, "n_if", 0) + 1
-        name = "%s_if%d" % (self.lean, self.n_if)
+        loop_no = getattr(self, "_cur_for", None) if len(self.scopes) != 1 else None
+        if loop_no is None:
+            self.n_if = getattr(self, "n_if", 0) + 1
+            name = "%s_if%d" % (self.lean, self.n_if)
+        else:                                                 # numbered per loop body: an edit elsewhere does not rename them
+            cnt = self.__dict__.setdefault("_if_per_loop", {})
+            cnt[loop_no] = cnt.get(loop_no, 0) + 1
+            self.n_if = cnt[loop_no]
+            name = "%s_for%d_if%d" % (self.lean, loop_no, cnt[loop_no])
         state = self.assigned_outer([e.then, e.els] if e.els is not None else [e.then])
         caps = self.mentioned(e, state)
         hb = Blk()
         self.scopes.append({})
+        saved_lvl = getattr(self, "_body_level", None)
+        self._body_level = None
         try:
             if state:
                 hb.let(self.state_text(state), "st")
@@ -605,6 +678,7 @@ class BFn(Fn):
             hb.add("pure " + self.state_text(state))
         finally:
             self.scopes.pop()
+            self._body_level = saved_lvl
         sty = self.state_ty(state)
         head = "def %s%s%s (st : %s) : Res %s := do" % (
             name, self.abs_decl(), "".join(" (%s : %s)" % (v.lean, v.ty.lean()) for v in caps), paren(sty), paren(sty))
@@ -615,14 +689,28 @@ class BFn(Fn):
             name, self.abs_use(), "".join(" " + v.lean for v in caps), self.state_text(state)))
 
     # ---------------------------------------------------------------- loops
+    def loop_source(self, it, blk):
+        if it.kind == "range" and it.incl and it.hi is not None:
+            lo, hi, t = self.pair(it.lo, it.hi, blk, None)
+            if not isinstance(t, TInt) or t.signed:
+                self.err("range over %r" % (t,), it)
+            return "List.range' %s (%s + 1 - %s)" % (atom(lo), atom(hi), atom(lo)), t, False
+        return Fn.loop_source(self, it, blk)
+
     def for_(self, s, blk):
         names = []
         walk(s.pat, lambda n: names.append(n.name) if n.kind == "pvar" else None)
         self._excl = set(names)                               # the pattern variables are not captures of the body
+        saved = getattr(self, "_body_level", None)
+        saved_for = getattr(self, "_cur_for", None)
+        self._cur_for = self.n_for + 1
+        self._body_level = len(self.scopes) + 1               # statements directly in this loop body
         try:
             return Fn.for_(self, s, blk)
         finally:
             self._excl = set()
+            self._body_level = saved
+            self._cur_for = saved_for
 
     def mentioned(self, node, exclude):
         vs = Fn.mentioned(self, node, exclude)
@@ -664,6 +752,17 @@ class BFn(Fn):
     # ---------------------------------------------------------------- the function
     def translate(self, body_text, body_pos):
         self.body_text, self.body_pos = body_text, body_pos
+        rg = self.f.get("region")
+        if rg is not None:
+            a = list(re.finditer(tokens_regex(rg[0]), body_text))
+            if len(a) < 1:
+                raise Unsupported("`%s` (start of the translated region: its first occurrence) not found" % rg[0], body_pos)
+            b = [m for m in re.finditer(tokens_regex(rg[1]), body_text) if m.start() > a[0].start()]
+            if not b:
+                raise Unsupported("`%s` (end of the translated region) not found" % rg[1], body_pos)
+            body_pos = body_pos + a[0].start()
+            body_text = body_text[a[0].start():b[0].start()]
+            self.body_text, self.body_pos = body_text, body_pos
         rc = self.f.get("rest_call")
         rest = None
         if rc is not None:
@@ -963,6 +1062,50 @@ unit(
                     "y_kmer_hash: &HashMapFx<&[u8], Vec<u32>>, ) -> Alignment",
              params=[("x", "TextSlice"), ("y", "TextSlice"), ("y_kmer_hash", KHASH)], ret="Alignment",
              abstract=[SD, FS2, FT, FC], abs_calls=FC_CALL),
+    ])
+
+
+# --- the per-column loop of `compute_alignment` (task step 3): a unit of its own, so that a restructuring of the DP (seeded
+# C02-H4: `rotate_columns()`) makes only this unit unavailable, not the band construction
+TB_CONSTS = {n: ("u16", "RbV.Gen.TbCodes." + l) for n, l in (
+    ("TB_START", "tbStart"), ("TB_INS", "tbIns"), ("TB_DEL", "tbDel"), ("TB_SUBST", "tbSubst"), ("TB_MATCH", "tbMatch"),
+    ("TB_XCLIP_PREFIX", "tbXclipPrefix"), ("TB_XCLIP_SUFFIX", "tbXclipSuffix"), ("TB_YCLIP_PREFIX", "tbYclipPrefix"),
+    ("TB_YCLIP_SUFFIX", "tbYclipSuffix"))}
+DP_STRUCTS = dict(BAND_STRUCTS)
+DP_STRUCTS["Aligner"] = [("S", "Vec<Vec<i32>>"), ("I", "Vec<Vec<i32>>"), ("D", "Vec<Vec<i32>>"), ("Lx", "Vec<usize>"),
+                         ("Ly", "Vec<usize>"), ("Sn", "Vec<i32>"), ("traceback", "Traceback"), ("scoring", "Scoring"),
+                         ("band", "Band"), ("k", "usize"), ("w", "usize")]
+DP_STRUCTS["TracebackCell"] = [("i", "u16"), ("d", "u16"), ("s", "u16")]
+CELL_T = "Nat × Nat × Nat"
+DP_ABS = [("matchFn", "Nat → Nat → Int"), ("tbGet", "Tbm → Nat → Nat → " + CELL_T), ("tbSet", "Tbm → Nat → Nat → " + CELL_T + " → Tbm")]
+DP_CALLS = {"self.scoring.match_fn.score": dict(lean="matchFn", params=["u8", "u8"], ret="i32", monadic=False),
+            "Tbm::get": dict(lean="tbGet", params=["usize", "usize"], ret="TracebackCell", monadic=False),
+            "Tbm::get_mut": dict(lean="tbGet", params=["usize", "usize"], ret="TracebackCell", monadic=False),
+            "Tbm::set": dict(lean="tbSet", params=["usize", "usize", "TracebackCell"], self_mut=True, monadic=False)}
+DP_GEN = {"Traceback": "Tbm"}
+
+unit(
+    name="SrcBandedFill", props="property C02", file=BANDED, imports=["RbV.Gen.Limits", "RbV.Gen.TbCodes"],
+    structs=DP_STRUCTS, consts=dict(BAND_CONSTS, **TB_CONSTS),
+    pinned_items=["struct Band { rows: usize, cols: usize, ranges: Vec<Range<usize>>, }",
+                  "pub struct Aligner<F: MatchFunc> { S: [Vec<i32>; 2], I: [Vec<i32>; 2], D: [Vec<i32>; 2], Lx: Vec<usize>, "
+                  "Ly: Vec<usize>, Sn: Vec<i32>, traceback: Traceback, scoring: Scoring<F>, band: Band, k: usize, w: usize, }"],
+    functions=[
+        dict(name="Aligner::gap_open_after_yclip", lean="gapOpenAfterYclip", callkey="Aligner::gap_open_after_yclip",
+             self="Aligner", generics=DP_GEN, abstract=DP_ABS, abs_calls=DP_CALLS,
+             header="fn gap_open_after_yclip(&self, i: usize, n: usize) -> i32", params=[("i", "usize"), ("n", "usize")], ret="i32"),
+        dict(name="Aligner::gap_open_after_xclip", lean="gapOpenAfterXclip", callkey="Aligner::gap_open_after_xclip",
+             self="Aligner", generics=DP_GEN, abstract=DP_ABS, abs_calls=DP_CALLS,
+             header="fn gap_open_after_xclip(&self, m: usize, j: usize) -> i32", params=[("m", "usize"), ("j", "usize")], ret="i32"),
+        # the statements `for j in 1..=n { … }` of `compute_alignment` (everything between the two markers), read as a method
+        # `fill_columns(&mut self, x, y, m, n)`
+        dict(name="Aligner::compute_alignment[for j in 1..=n]", key="compute_alignment_columns", lean="fillColumns",
+             callkey="Aligner::fill_columns", self="Aligner", self_mut=True, generics=DP_GEN, abstract=DP_ABS, abs_calls=DP_CALLS,
+             header="fn compute_alignment(&mut self, x: TextSlice<'_>, y: TextSlice<'_>) -> Alignment",
+             region=("for j in 1..=n {", "for i in 0..=m {"), named_ifs="loops",
+             params=[("x", "TextSlice"), ("y", "TextSlice"), ("m", "usize"), ("n", "usize")],
+             locals={"best_i_score": "i32", "best_d_score": "i32"},
+             theorem="RbV.Thm.GenSrcBandedFill.cell_values_eq_model"),
     ])
 
 
